@@ -240,10 +240,19 @@ def check_group(ctx, case, schedules=None, tag_prefix=""):
     if not may_fail and len(set(common.canon(r.final) for r in runs if r.result != "stopped")) > 1:
         ctx.fail("final-state-depends-on-schedule", full, detail)
     # ---- correspondence ---------------------------------------------------------------------
-    outs = ctx.model([CS.model_request(info, scripts, r.ops) for r in runs])
+    reqs = []
+    for r in runs:
+        q = CS.model_request(info, scripts, r.ops)
+        q["launches"] = CS.engine_request(info, r.exit_log)[0]
+        reqs.append(q)
+    outs = ctx.model(reqs)
     if outs is not None:
         for r, m in zip(runs, outs):
-            one = {"template": case["template"], "scripts": scripts, "ops": r.ops}
+            one = {"template": case["template"], "scripts": scripts, "ops": r.ops, "real": bool(case.get("real")),
+                   "cont": list(case.get("cont", ()))}
+            if case.get("real"):
+                ctx.compare("exit reason reported by the real Engine after every execution == EngS.reported", one,
+                            {"reasons": m["engineReasons"]}, {"reasons": CS.engine_request(info, r.exit_log)[1]})
             kk = CS.first_mismatch(m["snaps"], r.snaps)
             if kk is None:
                 ctx.compare("state after every op == Ctrl.step", one, {"agree": True}, {"agree": True})
@@ -344,7 +353,8 @@ CORPUS = [
                                "SubmissionFailed:os", "Success"]}},
     {"template": [{"name": "c0", "stage": 0, "refs": [], "wa": {"maxRestarts": 2}},
                   {"name": "c1", "stage": 0, "refs": [0], "wa": {}}],
-     "cont": [], "real": True, "seed": 9, "k": 3,
+     "cont": [], "real": True, "seed": 9, "k": 3,      # both restarts spent: the next failed submission is final
+     # (Engine.restart tests maxRestarts before it looks at the reason) - the rules give failed
      "scripts": {"stage0.c0": ["SubmissionFailed:launch", "ResourceExhausted", "SubmissionFailed",
                                "ResourceExhausted", "SubmissionFailed:os", "SubmissionFailed:os", "Success"]}},
 ]
